@@ -12,7 +12,10 @@ RULE = ("breadth-first search over histories of add_* events (origin with/withou
         "well reference point), all objects named 'X' so that names collide within and across types; each state is "
         "completed (missing origin/channel/frame added last), written and strictly decoded; states are merged on the "
         "canonical reference-model state with sets sorted by key (creation order of different sets is irrelevant to "
-        "identities and references); non-trivial = a transition whose file was written and compared")
+        "identities and references); plus, for 2..3 logical files with distinct set names, all interleavings of their "
+        "add_* sequences (origins with explicit references, objects before/after the origin): identities, references "
+        "and origins must stay inside each logical file; non-trivial = a transition / case whose file was written and "
+        "compared")
 ASSUMPTIONS = ["strict reader mc/rp66.py", "reference model mc/model.py (copy number = earlier same-named objects of "
                "the set; origin = explicit reference, else defining origin's, back-filled when the origin comes later)"]
 MIN_DISTINCT_OUTCOMES = 2
@@ -106,5 +109,41 @@ def step(h, tier):
     return canon_state(h), check_state(h)
 
 
+# ---------------------------------------------------------------------------------------------------------------------
+# several logical files: identities, references and origins must stay inside each logical file
+# ---------------------------------------------------------------------------------------------------------------------
+def shards(tier):
+    from mc.props import c18
+    return [s for s in c18.shards(tier) if s.get('kind') == 'lf' and s['mode'] == 'distinct']
+
+
+def cases(shard, tier):
+    from mc.props import c18
+    for c in c18.cases(shard, tier):
+        if c.get('wdata') is None:
+            yield c
+
+
 def run_case(case):
-    return check_state(case['history'])
+    if 'history' in case:
+        return check_state(case['history'])
+    from mc.props import c18
+    sp = c18.lf_spec(case)
+    res = S.run_spec(sp)
+    viol = []
+    if res['failed_at'] is not None or res['write'] != 'ok':
+        why = res['status'][-1] if res['failed_at'] is not None else res['write']
+        viol.append(("C07:multi-lf:valid-rejected", f"{why} | {c18._brief(case)}"))
+        return Outcome('multi-lf:raised', viol, True)
+    try:
+        lfs = R.split_logical_files(R.parse_physical(res['data']))
+        m = M.Model(sp)
+        for i, (mlf, lf) in enumerate(zip(m.lfs, lfs)):
+            errs = M.check_identity_and_refs(m, mlf, lf) + M.check_inventory(m, mlf, lf)
+            errs += [(c, d) for c, d in M.check_attrs(m, mlf, lf) if c.split(':')[0] in REF_CODES]
+            errs += [(c, d) for c, d in M.check_rows(m, mlf, lf) if c in ('fdata_unknown_frame', 'fdata_header')]
+            for code, d in errs:
+                viol.append((f"C07:multi-lf:{code}", f"logical file {i}: {d[:250]} | {c18._brief(case)}"))
+    except R.FormatError as e:
+        viol.append((f"C07:multi-lf:unparsable:{e.code}", f"{e} | {c18._brief(case)}"))
+    return Outcome('ok:multi-lf', viol, True, digest=sha(res['data']))
